@@ -2,6 +2,7 @@
 
 
 def register(K):
+    K.fieldsof("module:pickle", load="val", loads="val", Unpickler="val")
     K.fieldsof("exception.UnsafeFileError", filepath="val", info="val")
     K.contract("exception.UnsafeFileError.__init__", params="self: exception.UnsafeFileError, filepath: val, info: val",
                modifies=["self.filepath", "self.info"], allocates=False,
@@ -10,5 +11,6 @@ def register(K):
                params="file: stream?, max_acceptable_severity: analysis.Severity = Severity.LIKELY_SAFE, print_results: val = False, "
                       "json_output_path: val = None, *args: empty, **kwargs: val",
                returns="val",
+               requires=["pickle.loads is stock_loads()"],
                may_raise=["exception.UnsafeFileError", "Exception"],
                ensures=[])
